@@ -6,7 +6,7 @@
 import BioCantor.Proofs.LiftDefs
 import BioCantor.Proofs.RelInterval
 import BioCantor.Proofs.PointMaps
-namespace BioCantor.Proofs
+namespace BioCantor.Proofs.Lift
 open BioCantor BioCantor.Spec BioCantor.Model
 
 /-! ### observers -/
@@ -85,4 +85,384 @@ theorem throughPlacement_eq (p : Location) (xs : List Nat) :
   | none => rfl
   | some pl => simp only [mapM_getElem?, bases_length]
 
-end BioCantor.Proofs
+/-! ### `_union_preserve_overlaps` and its `reduce` -/
+
+/-- a lifted piece: non-empty type, given strand, constructor invariants -/
+def Good (st : Strand) (x : Location) : Prop := locationStrand? x = some st ∧ wfLocation x = true
+
+theorem basesPlus_ne_nil_of_blocks {bs : List Blk} (h : basesPlus bs ≠ []) : bs ≠ [] := by
+  intro hn; rw [hn] at h; exact h rfl
+
+theorem unionPreserve_ok (st : Strand) (a b : Location) (ha : Good st a) (hb : Good st b)
+    (hne : basesPlus (locationBlocks a) ≠ []) :
+    ∃ m, unionPreserve a b = .ok m ∧ Good st m ∧
+      (basesPlus (locationBlocks m)).Perm (basesPlus (locationBlocks a) ++ basesPlus (locationBlocks b)) ∧
+      (∀ x ∈ locationBlocks m, x.1 < x.2) := by
+  have hsa : locStrand a = .ok st := by
+    cases a <;> simp_all [Good, locationStrand?, locStrand] <;> rfl
+  have hsb : locStrand b = .ok st := by
+    cases b <;> simp_all [Good, locationStrand?, locStrand] <;> rfl
+  generalize hA : locationBlocks a = A at *
+  generalize hB : locationBlocks b = B at *
+  have hAv : ∀ x ∈ A, x.1 ≤ x.2 := hA ▸ wfLocation_valid a ha.2
+  have hBv : ∀ x ∈ B, x.1 ≤ x.2 := hB ▸ wfLocation_valid b hb.2
+  have hABne : A ++ B ≠ [] := by
+    have := basesPlus_ne_nil_of_blocks hne
+    simp [this]
+  have hABv : ∀ x ∈ A ++ B, x.1 ≤ x.2 := by
+    intro x hx
+    rcases List.mem_append.mp hx with h | h
+    · exact hAv x h
+    · exact hBv x h
+  generalize hS1 : sortBlocks st (A ++ B) = S1
+  have hS1p : S1.Perm (A ++ B) := hS1 ▸ sortBlocks_perm st _
+  have hS1v : ∀ x ∈ S1, x.1 ≤ x.2 := hS1 ▸ sortBlocks_valid st hABv
+  have hS1s : sortBlocks st S1 = S1 := by
+    rw [← hS1]; exact List.mergeSort_of_pairwise (sortBlocks_pairwise st _)
+  have hnb_b : basesPlus (combStart S1) = basesPlus S1 := combStart_bases S1 hS1v
+  have hnb_pos := normal_pos _ (combStart_normal S1)
+  have hchain : (basesPlus (combStart S1)).Perm (basesPlus A ++ basesPlus B) := by
+    rw [hnb_b, ← basesPlus_append]; exact basesPlus_perm hS1p
+  have hnb_ne : combStart S1 ≠ [] := by
+    intro h; rw [h] at hchain
+    have := hchain.length_eq
+    simp only [basesPlus, List.length_nil, List.length_append] at this
+    have : basesPlus A = [] := List.eq_nil_of_length_eq_zero (by omega)
+    exact hne this
+  have hopt := optimizeLoc_true_ok S1 st hS1s hnb_ne
+  generalize combStart S1 = nb at *
+  have hnb_v : ∀ x ∈ nb, x.1 ≤ x.2 := fun x hx => Nat.le_of_lt (hnb_pos x hx)
+  refine ⟨toSingleIfOne ⟨sortBlocks st nb, st⟩, ?_, ⟨locationStrand_toSingleIfOne _, ?_⟩, ?_, ?_⟩
+  · unfold unionPreserve
+    simp only [hsa, hsb, bind, Except.bind, locBlocks_eq, hA, hB, ne_eq, not_true, if_false,
+      mkCompoundLoc_ok st hABne hABv, hS1, hopt]
+  · exact wfLocation_toSingleIfOne _ (canon_sortBlocks st hnb_ne hnb_v)
+  · rw [locationBlocks_toSingleIfOne]
+    exact (basesPlus_perm (sortBlocks_perm st nb)).trans hchain
+  · rw [locationBlocks_toSingleIfOne]
+    intro x hx
+    exact hnb_pos x ((sortBlocks_perm st nb).mem_iff.mp hx)
+
+theorem reduceUnion_ok (st : Strand) (xs : List Location) : ∀ (acc : Location), Good st acc →
+    (∀ x ∈ xs, Good st x) → basesPlus (locationBlocks acc) ≠ [] →
+    ∃ m, reduceUnion acc xs = .ok m ∧ Good st m ∧
+      (basesPlus (locationBlocks m)).Perm
+        (basesPlus (locationBlocks acc) ++ xs.flatMap (fun x => basesPlus (locationBlocks x))) ∧
+      ((∀ x ∈ locationBlocks acc, x.1 < x.2) → ∀ x ∈ locationBlocks m, x.1 < x.2) ∧
+      (xs = [] → m = acc) := by
+  induction xs with
+  | nil =>
+    intro acc hacc _ _
+    exact ⟨acc, rfl, hacc, by simp, fun h => h, fun _ => rfl⟩
+  | cons x xs ih =>
+    intro acc hacc hxs hne
+    obtain ⟨u, hu, hgu, hpu, hposu⟩ := unionPreserve_ok st acc x hacc (hxs x (by simp)) hne
+    have hune : basesPlus (locationBlocks u) ≠ [] := by
+      intro h; rw [h] at hpu
+      have := hpu.length_eq
+      simp only [List.length_nil, List.length_append] at this
+      exact hne (List.eq_nil_of_length_eq_zero (by omega))
+    obtain ⟨m, hm, hgm, hpm, hposm, _⟩ := ih u hgu (fun y hy => hxs y (by simp [hy])) hune
+    refine ⟨m, ?_, hgm, ?_, fun _ => hposm hposu, by simp⟩
+    · simp only [reduceUnion, bind, Except.bind, hu, hm]
+    · refine hpm.trans ?_
+      simp only [List.flatMap_cons, ← List.append_assoc]
+      exact hpu.append_right _
+
+/-! ### one lifted block -/
+
+theorem compose_comm (a b : Strand) : compose a b = compose b a := by cases a <;> cases b <;> rfl
+
+theorem compoundRel_one (q : Blk) (st : Strand) (hst : st = .plus ∨ st = .minus) (s e : Nat) (rst : Strand)
+    (hse : s < e) (he : e ≤ q.len) :
+    compoundRelInterval ⟨[q], st⟩ s e rst = .ok (.single (subBlk st q s e) (strandRelativeTo rst st)) := by
+  have hscanB : scanBlocks ⟨[q], st⟩ = .ok [q] := by
+    rcases hst with h | h <;> simp [scanBlocks, assertDirectional, h, bind, Except.bind, pure, Except.pure]
+  have hwalk : relWalk st [q] s (e - s) = [subBlk st q s e] := by
+    rw [relWalk_last st q [] s (e - s) (by omega) (by omega)]
+    congr 2; omega
+  have hin := subBlk_inside st q s e hse he
+  generalize subBlk st q s e = x at *
+  have hxv : ∀ y ∈ [x], y.1 ≤ y.2 := by intro y hy; simp at hy; subst hy; omega
+  have hsort : sortBlocks st [x] = [x] := by simp [sortBlocks]
+  have hcs : combStart [x] = [x] := by
+    have : ¬ (x.2 - x.1 = 0) := by omega
+    simp [combStart, comb, this]
+  have hopt := optimizeLoc_true_ok [x] st hsort (by rw [hcs]; simp)
+  rw [hcs, hsort] at hopt
+  unfold compoundRelInterval
+  have c1 : ¬ ((s : Int) > (e : Int)) := by omega
+  have c2 : ¬ ((s : Int) < 0) := by omega
+  have c3 : ¬ ((e : Int) > ((Loc.len ⟨[q], st⟩ : Nat) : Int)) := by simp [Loc.len, blocksLen]; omega
+  have c4 : ¬ ((s : Int) = (e : Int)) := by omega
+  have t1 : ((s : Int)).toNat = s := by simp
+  have t2 : ((e : Int) - (s : Int)).toNat = e - s := by omega
+  rw [if_neg c1, if_neg c2, if_neg c3, if_neg c4, hscanB]
+  simp only [bind, Except.bind, t1, t2, hwalk, mkCompoundLoc_ok st (by simp : [x] ≠ []) hxv, hsort, hopt]
+  by_cases hns : strandRelativeTo rst st = st
+  · simp [hns, toSingleIfOne, pure, Except.pure]
+  · simp [hns, toSingleIfOne, resetStrand, pure, Except.pure]
+
+theorem relInterval_piece (p : Location) (hp : WF p) (pl : Loc) (hpl : toLoc p = some pl)
+    (hdir : pl.strand ≠ .unstranded) (s e : Nat) (hse : s < e) (he : e ≤ pl.len) (rst : Strand) :
+    ∃ m, relInterval p (s : Int) (e : Int) rst = .ok m ∧ Good (compose rst pl.strand) m ∧
+      (basesPlus (locationBlocks m)).Perm (((bases pl).drop s).take (e - s)) ∧
+      (nonOverlap pl.blocks = true → ∀ x ∈ locationBlocks m, x.1 < x.2) ∧
+      (pl.blocks.length ≤ 1 → (locationBlocks m).length ≤ 1) := by
+  cases p with
+  | empty => simp [toLoc] at hpl
+  | single b st =>
+    simp only [toLoc, Option.some.injEq] at hpl
+    subst hpl
+    simp only at hdir he
+    have hst : st = .plus ∨ st = .minus := by cases st <;> simp at hdir ⊢
+    have he' : e ≤ b.len := by simpa [Loc.len, blocksLen] using he
+    refine ⟨_, by simpa [relInterval] using singleRel_ok b st hst s e rst (by omega) he', ⟨?_, ?_⟩, ?_, ?_, ?_⟩
+    · simp [locationStrand?, strandRelativeTo_eq_compose]
+    · simpa [wfLocation] using subBlk_valid st b s e (by omega)
+    · have hrd : rd st (subBlk st b s e) = ((bases ⟨[b], st⟩).drop s).take (e - s) := by
+        rw [bases_single b st hdir, rd_subBlk st b s e (by omega) he']
+      rw [← hrd]
+      simpa [locationBlocks] using (readScan_perm_basesPlus st [subBlk st b s e]).symm
+    · intro _ x hx
+      simp only [locationBlocks, List.mem_singleton] at hx
+      subst hx
+      exact (subBlk_inside st b s e hse he').2.1
+    · intro _; simp [locationBlocks]
+  | compound loc =>
+    simp only [toLoc, Option.some.injEq] at hpl
+    subst hpl
+    obtain ⟨L, st⟩ := loc
+    simp only at hdir he
+    have hLv : ∀ b ∈ L, b.1 ≤ b.2 := (blocksValid_iff L).mp hp.2.1
+    obtain ⟨F, hF, hcanon, hperm, hex⟩ := compoundRel_pos L st s e rst hdir hse he
+    refine ⟨_, by simpa [relInterval] using hF, ⟨?_, ?_⟩, ?_, ?_, ?_⟩
+    · simp [locationStrand_toSingleIfOne, strandRelativeTo_eq_compose']
+    · exact wfLocation_toSingleIfOne _ hcanon
+    · simpa only [locationBlocks_toSingleIfOne] using hperm
+    · intro hno
+      rw [locationBlocks_toSingleIfOne]
+      exact normal_pos _ (hex hno hLv).2
+    · intro hlen
+      have hst : st = .plus ∨ st = .minus := by cases st <;> simp at hdir ⊢
+      match L, hlen, hp.1, he, hF with
+      | [q], _, _, he, hF =>
+        have he' : e ≤ q.len := by simpa [Loc.len, blocksLen] using he
+        rw [compoundRel_one q st hst s e rst hse he'] at hF
+        have := Except.ok.inj hF
+        rw [← this]; simp [locationBlocks]
+
+theorem relInterval_out (p : Location) (rs re : Int) (rst : Strand) (h : relintDomain p rs re = false) :
+    ans (relInterval p rs re rst) = none := by
+  cases p with
+  | empty => rfl
+  | single b st => exact single_out b st rs re rst h
+  | compound l => exact compound_out l rs re rst h
+
+theorem slice_eq_map (B : List Nat) (b : Blk) (hb : b.2 ≤ B.length) :
+    (B.drop b.1).take (b.2 - b.1) = (blkAsc b).map (fun i => B.getD i 0) := by
+  apply List.ext_getElem
+  · simp [blkAsc]; omega
+  · intro i h1 h2
+    simp only [blkAsc, List.length_map, List.length_range'] at h2
+    simp [blkAsc, List.getD_eq_getElem?_getD]
+    rw [List.getElem?_eq_getElem (by omega)]
+    simp
+
+theorem toLoc_len (p : Location) (pl : Loc) (h : toLoc p = some pl) : locLen p = pl.len := by
+  cases p <;> simp [toLoc] at h <;> subst h <;> simp [locLen, Loc.len, blocksLen]
+
+theorem liftBlocks_ok (p : Location) (hp : WF p) (pl : Loc) (hpl : toLoc p = some pl)
+    (hdir : pl.strand ≠ .unstranded) (rst : Strand) (bs : List Blk)
+    (hin : ∀ b ∈ bs, b.1 < b.2 ∧ b.2 ≤ pl.len) :
+    ∃ ms, liftBlocks p rst bs = .ok ms ∧ (∀ x ∈ ms, Good (compose rst pl.strand) x) ∧
+      (ms.flatMap (fun x => basesPlus (locationBlocks x))).Perm
+        ((basesPlus bs).map (fun i => (bases pl).getD i 0)) ∧
+      (bs = [] → ms = []) := by
+  induction bs with
+  | nil => exact ⟨[], rfl, by simp, by simp [basesPlus], fun _ => rfl⟩
+  | cons b bs ih =>
+    obtain ⟨hb1, hb2⟩ := hin b (by simp)
+    obtain ⟨x, hx, hgx, hpx, _⟩ := relInterval_piece p hp pl hpl hdir b.1 b.2 hb1 hb2 rst
+    obtain ⟨ms, hms, hgms, hpms, _⟩ := ih (fun y hy => hin y (by simp [hy]))
+    refine ⟨x :: ms, ?_, ?_, ?_, by simp⟩
+    · simp only [liftBlocks, bind, Except.bind, hx, hms]; rfl
+    · intro y hy
+      rcases List.mem_cons.mp hy with rfl | h
+      · exact hgx
+      · exact hgms y h
+    · simp only [List.flatMap_cons, basesPlus, List.map_append]
+      rw [← slice_eq_map (bases pl) b (by rw [bases_length]; exact hb2)]
+      exact hpx.append hpms
+
+theorem liftBlocks_fail (p : Location) (rst : Strand) (bs : List Blk)
+    (h : ∃ b ∈ bs, relintDomain p (b.1 : Int) (b.2 : Int) = false) :
+    ans (liftBlocks p rst bs) = none := by
+  induction bs with
+  | nil => simp at h
+  | cons b bs ih =>
+    simp only [liftBlocks, bind, Except.bind]
+    cases hx : relInterval p (b.1 : Int) (b.2 : Int) rst with
+    | error e => rfl
+    | ok x =>
+      simp only []
+      obtain ⟨b', hb', hd⟩ := h
+      rcases List.mem_cons.mp hb' with rfl | hmem
+      · have := relInterval_out p _ _ rst hd
+        rw [hx] at this; simp at this
+      · have := ih ⟨b', hmem, hd⟩
+        cases hy : liftBlocks p rst bs with
+        | error e => rfl
+        | ok ys => rw [hy] at this; simp at this
+
+theorem basesPlus_filter_pos (bs : List Blk) :
+    basesPlus (bs.filter (fun b => b.len > 0)) = basesPlus bs := by
+  induction bs with
+  | nil => rfl
+  | cons b bs ih =>
+    by_cases h : b.len > 0
+    · simp [h, basesPlus, ih]
+    · have : blkAsc b = [] := by unfold Blk.len at h; simp [blkAsc]; omega
+      simp [h, basesPlus, ih, this]
+
+theorem blocksLen_eq_length (bs : List Blk) : blocksLen bs = (basesPlus bs).length := by
+  rw [basesPlus_length]
+
+theorem liftOnce_unfold (c p : Location) (hce : c ≠ .empty) (hlc : 0 < locLen c) (hlp : 0 < locLen p) :
+    liftOnce c p =
+      (match (locationBlocks c).filter (fun b => b.len > 0) with
+      | [] => throw .TypeError
+      | b :: bs => do
+        let first ← relInterval p b.1 b.2 (strandOf c)
+        let rest ← liftBlocks p (strandOf c) bs
+        reduceUnion first rest) := by
+  unfold liftOnce
+  have h1 : ¬ (locLen c = 0) := by omega
+  have h2 : ¬ (locLen p = 0) := by omega
+  simp only [h1, h2, if_false, locStrand_of_ne c hce, locBlocks_eq, bind, Except.bind]
+  rfl
+
+theorem filter_pos_ne_nil (bs : List Blk) (h : 0 < blocksLen bs) : bs.filter (fun b => b.len > 0) ≠ [] := by
+  intro hn
+  have := basesPlus_filter_pos bs
+  rw [hn] at this
+  have h2 := basesPlus_length bs
+  rw [← this] at h2
+  simp [basesPlus] at h2
+  omega
+
+theorem liftOnce_ok (c p : Location) (hp : WF p) (pl : Loc) (hpl : toLoc p = some pl)
+    (hdir : pl.strand ≠ .unstranded) (hce : c ≠ .empty) (hlen : 0 < locLen c)
+    (hin : ∀ b ∈ locationBlocks c, b.1 < b.2 → b.2 ≤ pl.len) :
+    ∃ m, liftOnce c p = .ok m ∧ Good (compose (strandOf c) pl.strand) m ∧
+      (basesPlus (locationBlocks m)).Perm
+        ((basesPlus (locationBlocks c)).map (fun i => (bases pl).getD i 0)) ∧
+      (nonOverlap pl.blocks = true → ∀ x ∈ locationBlocks m, x.1 < x.2) ∧
+      ((locationBlocks c).length ≤ 1 → pl.blocks.length ≤ 1 → (locationBlocks m).length ≤ 1) := by
+  generalize hpos : (locationBlocks c).filter (fun b => b.len > 0) = pos
+  have hposne : pos ≠ [] := by
+    rw [← hpos]; exact filter_pos_ne_nil _ (by rw [← locLen_eq]; exact hlen)
+  have hposin : ∀ b ∈ pos, b.1 < b.2 ∧ b.2 ≤ pl.len := by
+    intro b hb
+    rw [← hpos, List.mem_filter] at hb
+    have h1 : b.1 < b.2 := by have := hb.2; simp [Blk.len] at this; omega
+    exact ⟨h1, hin b hb.1 h1⟩
+  have hposb : basesPlus pos = basesPlus (locationBlocks c) := by rw [← hpos]; exact basesPlus_filter_pos _
+  have hposlen : pos.length ≤ (locationBlocks c).length := by rw [← hpos]; exact List.length_filter_le _ _
+  match pos, hposne, hpos with
+  | b :: bs, _, hpos =>
+    obtain ⟨hb1, hb2⟩ := hposin b (by simp)
+    have hlp : 0 < locLen p := by rw [toLoc_len p pl hpl]; omega
+    obtain ⟨x, hx, hgx, hpx, hposx, hlenx⟩ :=
+      relInterval_piece p hp pl hpl hdir b.1 b.2 hb1 hb2 (strandOf c)
+    obtain ⟨ms, hms, hgms, hpms, hnil⟩ :=
+      liftBlocks_ok p hp pl hpl hdir (strandOf c) bs (fun y hy => hposin y (by simp [hy]))
+    have hxne : basesPlus (locationBlocks x) ≠ [] := by
+      intro h; rw [h] at hpx
+      have := hpx.length_eq
+      simp [bases_length] at this; omega
+    obtain ⟨m, hm, hgm, hpm, hposm, hmnil⟩ := reduceUnion_ok _ ms x hgx hgms hxne
+    refine ⟨m, ?_, hgm, ?_, fun hno => hposm (hposx hno), ?_⟩
+    · rw [liftOnce_unfold c p hce hlen hlp, hpos]
+      simp only [bind, Except.bind, hx, hms, hm]
+    · refine hpm.trans ?_
+      rw [← hposb]
+      simp only [basesPlus, List.map_append]
+      rw [← slice_eq_map (bases pl) b (by rw [bases_length]; exact hb2)]
+      exact hpx.append hpms
+    · intro h1 h2
+      have : bs = [] := by
+        simp only [List.length_cons] at hposlen
+        exact List.eq_nil_of_length_eq_zero (by omega)
+      rw [hmnil (hnil this)]
+      exact hlenx h2
+
+theorem mem_blkAsc (b : Blk) (i : Nat) : i ∈ blkAsc b ↔ b.1 ≤ i ∧ i < b.2 := by
+  simp [blkAsc, List.mem_range'_1]; omega
+
+theorem mem_basesPlus (bs : List Blk) (i : Nat) : i ∈ basesPlus bs ↔ ∃ b ∈ bs, b.1 ≤ i ∧ i < b.2 := by
+  simp only [basesPlus_eq_flatMap, List.mem_flatMap, mem_blkAsc]
+
+theorem liftOnce_fail (c p : Location) (hce : c ≠ .empty)
+    (h : throughPlacement p (locationBases c) = none ∨ locLen c = 0) : ans (liftOnce c p) = none := by
+  by_cases hlc : locLen c = 0
+  · unfold liftOnce; simp [hlc, bind, Except.bind, throw, throwThe, MonadExceptOf.throw]
+  by_cases hlp : locLen p = 0
+  · unfold liftOnce; simp [hlc, hlp, bind, Except.bind, throw, throwThe, MonadExceptOf.throw]
+  have hth : throughPlacement p (locationBases c) = none := by
+    rcases h with h | h
+    · exact h
+    · exact absurd h hlc
+  rw [liftOnce_unfold c p hce (by omega) (by omega)]
+  generalize hpos : (locationBlocks c).filter (fun b => b.len > 0) = pos
+  have hposne : pos ≠ [] := by
+    rw [← hpos]; exact filter_pos_ne_nil _ (by rw [← locLen_eq]; omega)
+  have hposb : basesPlus pos = basesPlus (locationBlocks c) := by rw [← hpos]; exact basesPlus_filter_pos _
+  -- some positive block of `c` is outside the domain of the placement
+  have hbad : ∃ b ∈ pos, relintDomain p (b.1 : Int) (b.2 : Int) = false := by
+    rw [throughPlacement_eq] at hth
+    cases hpl : toLoc p with
+    | none =>
+      match pos, hposne with
+      | b :: _, _ => exact ⟨b, by simp, by simp [relintDomain, hpl]⟩
+    | some pl =>
+      rw [hpl] at hth
+      simp only at hth
+      by_cases hu : pl.strand = .unstranded
+      · match pos, hposne with
+        | b :: _, _ => exact ⟨b, by simp, by simp [relintDomain, hpl, hu, Strand.isDirectional]⟩
+      · rw [if_neg hu] at hth
+        have hex : ¬ ∀ i ∈ locationBases c, i < pl.len := by
+          intro hall; rw [if_pos hall] at hth; simp at hth
+        have hex' : ∃ i, i ∈ locationBases c ∧ pl.len ≤ i := by
+          apply Classical.byContradiction
+          intro hn
+          apply hex
+          intro i hi
+          apply Classical.byContradiction
+          intro hlt
+          exact hn ⟨i, hi, by omega⟩
+        obtain ⟨i, hi, hge⟩ := hex'
+        have hi2 : i ∈ basesPlus pos := by
+          rw [hposb]
+          rw [locationBases_eq c _ (locationStrand_of_ne c hce)] at hi
+          exact (bases_perm_basesPlus _ _).mem_iff.mp hi
+        obtain ⟨b, hb, hb1, hb2⟩ := (mem_basesPlus pos i).mp hi2
+        refine ⟨b, hb, ?_⟩
+        simp only [relintDomain, hpl]
+        have : ¬ ((b.2 : Int) ≤ (pl.len : Int)) := by omega
+        simp [this]
+  match pos, hposne, hbad with
+  | b :: bs, _, hbad =>
+    have hf := liftBlocks_fail p (strandOf c) (b :: bs) hbad
+    simp only [liftBlocks, bind, Except.bind] at hf ⊢
+    cases hx : relInterval p (b.1 : Int) (b.2 : Int) (strandOf c) with
+    | error e => rfl
+    | ok x =>
+      rw [hx] at hf
+      simp only [] at hf ⊢
+      cases hy : liftBlocks p (strandOf c) bs with
+      | error e => rfl
+      | ok ys => rw [hy] at hf; simp [pure, Except.pure] at hf
+
+end BioCantor.Proofs.Lift
